@@ -126,10 +126,21 @@ impl IOQueue {
 
     /// Drop all but last chunks
     pub fn clear_but_last(&mut self) {
+        #[cfg(feature = "verif-hooks")]
+        let verif_before = self.chunks.len();
         if self.chunks.len() > 1 {
             let dropped: usize = self.chunks.drain(1..).map(|chunk| chunk.len()).sum();
             self.length -= dropped;
         }
+        #[cfg(feature = "verif-hooks")]
+        crate::verif::emit(|| {
+            format!(
+                r#"{{"ev":"frames_drop","before":{},"after":{},"len":{}}}"#,
+                verif_before,
+                self.chunks.len(),
+                self.length
+            )
+        });
     }
 
     /// Number of available chunks
@@ -172,6 +183,8 @@ impl IOQueue {
 
 impl Write for IOQueue {
     fn write(&mut self, buf: &[u8]) -> std::io::Result<usize> {
+        #[cfg(feature = "verif-hooks")]
+        crate::verif::emit(|| format!(r#"{{"ev":"queue_write","n":{}}}"#, buf.len()));
         if self.chunks.is_empty() {
             self.chunks.push_back(Default::default());
         }
@@ -181,6 +194,8 @@ impl Write for IOQueue {
     }
 
     fn flush(&mut self) -> std::io::Result<()> {
+        #[cfg(feature = "verif-hooks")]
+        crate::verif::emit(|| r#"{"ev":"queue_flush"}"#.to_string());
         if !self.as_slice().is_empty() {
             self.chunks.push_back(Default::default());
         }
